@@ -6,7 +6,7 @@ Import ListNotations.
 Open Scope Z_scope.
 
 (* every primitive operation the evaluator performs is an operator of _BIN applied to two evaluated values,
-   a cast of _SAFE_CASTS, or one of the constructor-fixed kinds (negation, str of an f-string part, len, abs,
+   a cast of _SAFE_CASTS, or one of the constructor-fixed kinds (str + str, negation, str of an f-string part, len, abs,
    max/min, comparison, truth test, lookup in the environment dict) *)
 Theorem C11_whitelist : forall e cenv p, In p (snd (eval_const_fx cenv e)) -> allowed p.
 Proof. exact whitelist. Qed.
